@@ -513,6 +513,11 @@ def r_options_readonly(ck: Checker) -> None:
                     bad = x
                 elif isinstance(x, ast.Call) and isinstance(x.func, ast.Attribute) and x.func.attr in ("update", "setdefault", "pop", "clear", "popitem", "__setitem__") and is_view(x.func.value):
                     bad = x
+            presence = next((x for x in ast.walk(fn) if isinstance(x, ast.Compare) and len(x.ops) == 1 and isinstance(x.ops[0], (ast.In, ast.NotIn)) and is_view(x.comparators[0])), None)
+            if presence is not None:
+                ck.violation("R-OPT-OWN", (m_.rel, q), presence, f"{q} reads an option by its value (an option given as False is an option not taken)", positive=True,
+                             construct=f"{q}: `{norm(presence)[:60]}` tests whether the option key is present — passing the option with a falsy value (the documented way to switch it off) switches it on")
+                continue
             what = f"{q} only reads the options of the call in progress"
             if bad is not None:
                 ck.violation("R-OPT-OWN", (m_.rel, q), bad, what, positive=True,
@@ -627,6 +632,8 @@ def run(ck: Checker) -> None:
         "mashumaro calls _serialize/_deserialize/__post_serialize__ on every nested mixin object (third party, not analysed)",
         "a write to a slot is atomic: if its statement raises the slot keeps its previous value",
     ]
+    from . import state_rules as S16
+    ck.guard("R-OPT-OWN", lambda: S16.r_shared_defaults(ck, "R-OPT-OWN", SER, None))  # per-thread / per-call state objects do not share one mutable default
     slots = find_slots(ck)
     if len(slots) < 2:
         ck.incomplete("R-OPT-PAIR", None, None, f"expected 2 option slots on {MIXIN}, found {sorted(slots)}")
